@@ -1,9 +1,9 @@
 """Contracts for opfython/models/supervised.py: _find_prototypes (C02), fit (C01), predict (C03, C17)."""
 from pyvc.contracts import contract, schema, lemma, LoopSpec
 from pyvc.logic import (conj, disj, neg, implies, iff, ite, eq, ne, lt, le, gt, ge, between, forall, exists,
-                        length, vmax, vmin, MODE)
+                        length, vmax, vmin, MODE, multipat)
 from specs.graph import *  # noqa: F401,F403
-from specs.graph import W, metric_hyp, statuses_ok, node_static_same
+from specs.graph import W, W_terms, metric_hyp, statuses_ok, node_static_same
 from specs import heap as HP
 
 S = "opfython.models.supervised.SupervisedOPF."
@@ -19,7 +19,10 @@ def built(sg, X, Y, I, k):
         eq(sg.nodes[i].status, STANDARD), eq(sg.nodes[i].pred, NIL),
         eq(sg.nodes[i].relevant, IRRELEVANT), eq(sg.nodes[i].predicted_label, 0),
         eq(sg.nodes[i].cluster_label, 0), eq(sg.nodes[i].cost, 0), eq(sg.nodes[i].density, 0),
-        eq(sg.nodes[i].n_plateaus, 0), eq(length(sg.nodes[i].adjacency), 0), eq(sg.nodes[i].root, 0)))
+        eq(sg.nodes[i].n_plateaus, 0), eq(length(sg.nodes[i].adjacency), 0), eq(sg.nodes[i].root, 0)),
+        pats=(lambda i: [getattr(sg.nodes[i], f) for f in ("label", "features", "idx", "status", "pred", "relevant",
+                                                           "predicted_label", "cluster_label", "cost", "density",
+                                                           "n_plateaus", "root")]) if MODE.kind == "sym" else None)
 
 
 def rows_ok(X, Y, I):
@@ -75,26 +78,73 @@ def fp_requires(v):
             ("two_classes", two_classes(sg))]
 
 
-def fp_common(v, old):
-    """facts about the outer state shared by the two loops of _find_prototypes"""
+def fp_common(v, old, inner=False):
+    """facts about the outer state shared by the two loops of _find_prototypes: Prim's certificate (DESIGN §3 C02,
+    P1-P4).  Ghost state: g_prank[x] = number of nodes removed before x, g_pinv its inverse, g_m the number removed so
+    far, g_wit[x] the bichromatic tree arc (named by its later endpoint) that made x a prototype, g_q[x] / g_r[x] a
+    prototype of x's class / of node 0's class for x outside node 0's class."""
     m, sg, o = v.self, v.self.subgraph, old.self.subgraph
     h = v.h
     n = length(sg.nodes)
     N = sg.nodes
+    D, col = h.cost, h.color
+    rk, rinv, gm, wit, gq, gr = v.g_prank, v.g_pinv, v.g_m, v.g_wit, v.g_q, v.g_r
+    notp = (lambda b: ne(b, v.p)) if inner else (lambda b: True)
     return [
         ("heap", conj(HP.inv(h), eq(h.size, n), eq(h.policy, "min"))),
         ("static", conj(node_static_same(sg, o), eq(m.pre_computed_distance, old.self.pre_computed_distance))),
         ("status_ok", statuses_ok(sg)),
-        ("cost_range", forall(0, n, lambda x: conj(le(0, h.cost[x]), le(h.cost[x], FLOAT_MAX)))),
+        ("cost_range", forall(0, n, lambda x: conj(le(0, D[x]), le(D[x], FLOAT_MAX)))),
         # queued, non-root nodes hang on a BLACK node
-        ("pred_black", forall(0, n, lambda x: implies(conj(ne(h.color[x], WHITE), ne(x, 0)),
+        ("pred_black", forall(0, n, lambda x: implies(conj(ne(col[x], WHITE), ne(x, 0)),
                                                       conj(le(0, N[x].pred), lt(N[x].pred, n),
-                                                           eq(h.color[N[x].pred], BLACK))))),
-        ("root", conj(eq(N[0].pred, NIL), ne(h.color[0], WHITE))),
-        ("white_max", forall(0, n, lambda x: implies(eq(h.color[x], WHITE), eq(h.cost[x], FLOAT_MAX)))),
-        # prototypes come in bichromatic tree arcs; BLACK nodes of an all-one-label prefix have no prototype yet
-        ("proto_or_mono", disj(exists(0, n, lambda x: eq(N[x].status, PROTOTYPE)),
-                               forall(0, n, lambda x: implies(eq(h.color[x], BLACK), eq(N[x].label, N[0].label))))),
+                                                           eq(col[N[x].pred], BLACK))),
+                              pats=lambda x: [N[x].pred])),
+        ("root", conj(eq(N[0].pred, NIL), ne(col[0], WHITE))),
+        ("white_max", forall(0, n, lambda x: implies(eq(col[x], WHITE), eq(D[x], FLOAT_MAX)))),
+        # removal order: g_prank / g_pinv are inverse bijections between the BLACK nodes and [0, g_m)
+        ("P_rank", conj(ge(gm, 0),
+                        forall(0, gm, lambda r: conj(le(0, rinv[r]), lt(rinv[r], n), eq(col[rinv[r]], BLACK),
+                                                     eq(rk[rinv[r]], r))),
+                        forall(0, n, lambda b: implies(eq(col[b], BLACK),
+                                                       conj(le(0, rk[b]), lt(rk[b], gm), eq(rinv[rk[b]], b)))))),
+        # P1: the key of a queued node is its lightest arc to the tree, and pred is the other end of that arc
+        ("P1_key", forall(0, n, lambda q: implies(conj(eq(col[q], GRAY), ne(q, 0)),
+                                                  eq(D[q], W(m, N[q].pred, q))),
+                          pats=lambda q: [N[q].pred])),
+        ("P1_lightest", forall(0, n, lambda b, q: implies(conj(eq(col[b], BLACK), eq(col[q], GRAY), notp(b)),
+                                                         le(D[q], W(m, b, q))),
+                               pats=lambda b, q: W_terms(m, b, q))),
+        # P2: every tree arc was, when it was added, a lightest arc leaving the set of earlier-removed nodes
+        ("P2_tree", forall(0, n, lambda x: implies(conj(eq(col[x], BLACK), ne(x, 0)),
+                                                   conj(lt(rk[N[x].pred], rk[x]),
+                                                        eq(N[x].cost, W(m, N[x].pred, x)))),
+                           pats=lambda x: [N[x].pred])),
+        ("P2_cut", forall(0, n, lambda x, b, y: implies(
+            conj(eq(col[x], BLACK), ne(x, 0), eq(col[b], BLACK), lt(rk[b], rk[x]),
+                 disj(ne(col[y], BLACK), ge(rk[y], rk[x]))),
+            le(N[x].cost, W(m, b, y))),
+            pats=lambda x, b, y: [multipat(rk[x], t) for t in W_terms(m, b, y)])),
+        # P3: prototypes are exactly the endpoints of the bichromatic tree arcs added so far
+        ("P3_only", forall(0, n, lambda x: implies(
+            eq(N[x].status, PROTOTYPE),
+            conj(le(0, wit[x]), lt(wit[x], n), ne(wit[x], 0), eq(col[wit[x]], BLACK),
+                 ne(N[wit[x]].label, N[N[wit[x]].pred].label),
+                 disj(eq(x, wit[x]), eq(x, N[wit[x]].pred)))),
+            pats=lambda x: [wit[x]])),
+        ("P3_all", forall(0, n, lambda y: implies(
+            conj(eq(col[y], BLACK), ne(y, 0), ne(N[y].label, N[N[y].pred].label)),
+            conj(eq(N[y].status, PROTOTYPE), eq(N[N[y].pred].status, PROTOTYPE))),
+            pats=lambda y: [N[y].pred])),
+        # P4: every class met so far has a prototype, and once a second class is met so has node 0's class
+        ("P4_own", forall(0, n, lambda x: implies(
+            conj(eq(col[x], BLACK), ne(N[x].label, N[0].label)),
+            conj(le(0, gq[x]), lt(gq[x], n), eq(N[gq[x]].status, PROTOTYPE), eq(N[gq[x]].label, N[x].label))),
+            pats=lambda x: [col[x], gq[x]])),
+        ("P4_root", forall(0, n, lambda x: implies(
+            conj(eq(col[x], BLACK), ne(N[x].label, N[0].label)),
+            conj(le(0, gr[x]), lt(gr[x], n), eq(N[gr[x]].status, PROTOTYPE), eq(N[gr[x]].label, N[0].label))),
+            pats=lambda x: [col[x], gr[x]])),
     ]
 
 
@@ -102,32 +152,125 @@ def fp_outer(v, old, le_):
     sg, h = v.self.subgraph, v.h
     n = length(sg.nodes)
     return fp_common(v, old) + [
-        ("phase", disj(conj(eq(h.last, 0), eq(h.color[0], GRAY),
+        ("phase", disj(conj(eq(h.last, 0), eq(h.color[0], GRAY), eq(v.g_m, 0),
                             forall(0, n, lambda x: implies(ne(x, 0), eq(h.color[x], WHITE)))),
                        conj(eq(h.color[0], BLACK), forall(0, n, lambda x: ne(h.color[x], WHITE))))),
     ]
 
 
 def fp_inner(v, old, le_):
-    sg, h = v.self.subgraph, v.h
+    m, sg, h = v.self, v.self.subgraph, v.h
     n = length(sg.nodes)
-    return fp_common(v, old) + [
+    return fp_common(v, old, inner=True) + [
         ("p", conj(le(0, v.p), lt(v.p, n), eq(h.color[v.p], BLACK), eq(h.color[0], BLACK))),
         ("scanned", forall(0, v.q, lambda x: implies(ne(x, v.p), ne(h.color[x], WHITE)))),
-        ("later", disj(forall(0, n, lambda x: implies(conj(ne(x, v.p), ge(x, v.q)), eq(h.color[x], WHITE))),
+        ("later", disj(conj(forall(0, n, lambda x: implies(conj(ne(x, v.p), ge(x, v.q)), eq(h.color[x], WHITE))),
+                            forall(0, n, lambda x: implies(ne(x, v.p), ne(h.color[x], BLACK)))),
                        forall(0, n, lambda x: ne(h.color[x], WHITE)))),
+        ("P1_lightest_p", forall(0, v.q, lambda x: implies(eq(h.color[x], GRAY), le(h.cost[x], W(m, v.p, x))))),
     ]
 
 
+def fp_ensures(v, old, result):
+    m, sg = v.self, v.self.subgraph
+    n = length(sg.nodes)
+    N = sg.nodes
+    out = [
+        ("static", node_static_same(sg, old.self.subgraph)),
+        ("status_ok", statuses_ok(sg)),
+        ("some_prototype", exists(0, n, lambda x: eq(N[x].status, PROTOTYPE))),
+        # C02: at least one prototype of every class ...
+        ("every_class_has_prototype", forall(0, n, lambda x: exists(0, n, lambda z: conj(
+            eq(N[z].status, PROTOTYPE), eq(N[z].label, N[x].label))))),
+    ]
+    if MODE.kind != "sym":
+        return out
+    rk = v.ghost("g_prank", "list[int]")
+    wit = v.ghost("g_wit", "list[int]")
+    return out + [
+        # ... the pred map is a spanning tree rooted at node 0 (ranks strictly decrease towards the root, so no
+        # cycle), node costs are the tree-arc weights ...
+        ("mst_root", eq(N[0].pred, NIL)),
+        ("mst_rank_range", forall(0, n, lambda x: conj(le(0, rk[x]), lt(rk[x], n)))),
+        ("mst_rank_injective", forall(0, n, lambda x, y: implies(ne(x, y), ne(rk[x], rk[y])))),
+        ("mst_tree", forall(0, n, lambda x: implies(ne(x, 0), conj(le(0, N[x].pred), lt(N[x].pred, n),
+                                                                   lt(rk[N[x].pred], rk[x]),
+                                                                   eq(N[x].cost, W(m, N[x].pred, x)))))),
+        # ... every tree arc is a lightest arc across the cut (nodes added before x | the rest): the cut-property
+        # certificate of a minimum spanning tree of the complete graph ...
+        ("mst_cut_certificate", forall(0, n, lambda x, b, y: implies(
+            conj(ne(x, 0), lt(rk[b], rk[x]), ge(rk[y], rk[x])),
+            le(W(m, N[x].pred, x), W(m, b, y))))),
+        # ... and the prototypes are exactly the endpoints of the tree arcs joining different labels
+        ("prototypes_only_on_class_boundaries", forall(0, n, lambda x: implies(
+            eq(N[x].status, PROTOTYPE),
+            conj(le(0, wit[x]), lt(wit[x], n), ne(wit[x], 0),
+                 ne(N[wit[x]].label, N[N[wit[x]].pred].label),
+                 disj(eq(x, wit[x]), eq(x, N[wit[x]].pred)))))),
+        ("boundary_endpoints_are_prototypes", forall(0, n, lambda y: implies(
+            conj(ne(y, 0), ne(N[y].label, N[N[y].pred].label)),
+            conj(eq(N[y].status, PROTOTYPE), eq(N[N[y].pred].status, PROTOTYPE))))),
+    ]
+
+
+def fp_exit_hints(v, old):
+    sg, h = v.self.subgraph, v.h
+    n = length(sg.nodes)
+    N = sg.nodes
+    return [
+        ("no_gray", forall(0, n, lambda x: ne(h.color[x], GRAY))),
+        ("all_black", forall(0, n, lambda x: eq(h.color[x], BLACK))),
+        ("removed_all", le(v.g_m, n)),
+        ("rank_total", forall(0, n, lambda x: conj(le(0, v.g_prank[x]), lt(v.g_prank[x], v.g_m),
+                                                   eq(v.g_pinv[v.g_prank[x]], x)))),
+        ("second_class", exists(0, n, lambda x: conj(eq(h.color[x], BLACK), ne(N[x].label, N[0].label)))),
+        ("own_class_has_prototype", forall(0, n, lambda x: implies(
+            ne(N[x].label, N[0].label),
+            conj(le(0, v.g_q[x]), lt(v.g_q[x], n), eq(N[v.g_q[x]].status, PROTOTYPE),
+                 eq(N[v.g_q[x]].label, N[x].label))), pats=lambda x: [N[x].label])),
+        ("root_class_has_prototype", exists(0, n, lambda z: conj(eq(N[z].status, PROTOTYPE),
+                                                                 eq(N[z].label, N[0].label)))),
+    ]
+
+
+def fp_removed_hints(v, old):
+    """the node just removed hangs on the lightest arc between the removed and the not-yet-removed nodes"""
+    m, sg, h = v.self, v.self.subgraph, v.h
+    n = length(sg.nodes)
+    N, D, col, p = sg.nodes, h.cost, h.color, v.p
+    return [
+        ("p_best_key", forall(0, n, lambda y: implies(ne(col[y], BLACK), le(D[p], D[y])))),
+        ("p_lightest", forall(0, n, lambda b, y: implies(conj(eq(col[b], BLACK), ne(b, p), disj(eq(y, p), ne(col[y], BLACK))),
+                                                        le(D[p], W(m, b, y))),
+                               pats=lambda b, y: W_terms(m, b, y))),
+        ("p_key", implies(ne(p, 0), conj(eq(D[p], W(m, N[p].pred, p)), lt(v.g_prank[N[p].pred], v.g_prank[p])))),
+    ]
+
+
+_GN = "[0 for _ in range(self.subgraph.n_nodes)]"
+
 contract(S + "_find_prototypes", params={"self": "obj:SupervisedOPF"}, props=["C02", "C01", "C15"],
-         requires=fp_requires,
-         ensures=lambda v, old, result: [
-             ("static", node_static_same(v.self.subgraph, old.self.subgraph)),
-             ("status_ok", statuses_ok(v.self.subgraph)),
-             ("some_prototype", exists(0, length(v.self.subgraph.nodes),
-                                       lambda x: eq(v.self.subgraph.nodes[x].status, PROTOTYPE))),
-         ],
+         requires=fp_requires, ensures=fp_ensures,
+         certificate=["mst_rank_range", "mst_rank_injective", "mst_tree", "mst_cut_certificate",
+                      "prototypes_only_on_class_boundaries", "boundary_endpoints_are_prototypes"],
          modifies=["self.subgraph.nodes.cost", "self.subgraph.nodes.pred", "self.subgraph.nodes.status"],
+         ghost=[("after:h.insert(0)", "g_prank = %s\ng_pinv = %s\ng_wit = %s\ng_q = %s\ng_r = %s\ng_m = 0"
+                 % (_GN, _GN, _GN, _GN, _GN)),
+                ("after:p = h.remove()", "g_prank[p] = g_m\ng_pinv[g_m] = p\ng_m = g_m + 1"),
+                ("after:pred = self.subgraph.nodes[p].pred", """
+if pred != c.NIL:
+    g_q[p] = p if self.subgraph.nodes[p].label != self.subgraph.nodes[pred].label else g_q[pred]
+    g_r[p] = pred if self.subgraph.nodes[pred].label == self.subgraph.nodes[0].label else g_r[pred]
+    if self.subgraph.nodes[p].label != self.subgraph.nodes[pred].label:
+        if self.subgraph.nodes[p].status != c.PROTOTYPE:
+            g_wit[p] = p
+        if self.subgraph.nodes[pred].status != c.PROTOTYPE:
+            g_wit[pred] = p
+""")],
+         lemmas=[("after:loop0", "inj_card", lambda v: {"f": v.g_pinv, "g": v.g_prank, "a": v.g_m,
+                                                       "b": length(v.self.subgraph.nodes)})],
+         late_hints=[("after:loop0", fp_exit_hints),
+                     ("after:self.subgraph.nodes[p].cost = h.cost[p]", fp_removed_hints)],
          loops=[LoopSpec("while", inv=fp_outer), LoopSpec("for", var="q", inv=fp_inner)])
 
 
@@ -156,7 +299,9 @@ def fit_static(v, old, semi=False):
             # labelled samples) keep their true label
             ("labels", conj(forall(0, n, lambda x: conj(ge(N[x].label, 0), ge(N[x].idx, 0))),
                             forall(0, n, lambda x: implies(eq(N[x].status, PROTOTYPE),
-                                                           conj(lt(x, nl), eq(N[x].label, v.Y_train[x])))))),
+                                                           conj(lt(x, nl), eq(N[x].label, v.Y_train[x]))))),
+             # (the relabelled node q is never a prototype: a prototype's cost is 0 and offers are non-negative)
+             ["labels", "plabel_nonneg", "I3_proto", "I0_range", "req.metric", "p", "n"]),
         ]
     else:
         head = [
@@ -214,7 +359,8 @@ def fit_forest(v, old, semi=False):
                                                    conj(le(0, N[x].pred), lt(N[x].pred, n), ne(N[x].pred, x),
                                                         eq(col[N[x].pred], BLACK),
                                                         eq(D[x], vmax(D[N[x].pred], W(m, N[x].pred, x))),
-                                                        eq(N[x].predicted_label, N[N[x].pred].predicted_label))))),
+                                                        eq(N[x].predicted_label, N[N[x].pred].predicted_label)))),
+         ["I3_pred", "p", "n", "call.Heap.update.cost", "call.Heap.update.color", "static", "labels"]),
         ("I4_final", forall(0, n, lambda b: implies(eq(col[b], BLACK), eq(N[b].cost, D[b])))),
         ("I4_ord", conj(le(0, mlen), eq(length(rank), n),
                         forall(0, mlen, lambda r: conj(le(0, ordl[r]), lt(ordl[r], n), eq(col[ordl[r]], BLACK),
@@ -234,7 +380,10 @@ def fit_outer_inv(v, old, le_, semi=False):
     D, col = h.cost, h.color
     return fit_forest(v, old, semi) + [
         ("I2_closed", forall(0, n, lambda b, q: implies(conj(eq(col[b], BLACK), ne(b, q)),
-                                                       le(D[q], vmax(D[b], W(m, b, q)))))),
+                                                       le(D[q], vmax(D[b], W(m, b, q)))),
+                             pats=lambda b, q: W_terms(m, b, q) + [multipat(sg.nodes[b].status, D[q])]),
+         # preserved by an iteration: the inner loop's exit invariants say exactly this, split by b = p / b != p
+         ["I2_closed_others", "I2_closed_p", "p", "n"]),
     ]
 
 
@@ -248,7 +397,8 @@ def fit_inner_inv(v, old, le_, semi=False):
         ("p", conj(le(0, p), lt(p, n), eq(col[p], BLACK), ge(length(ordl), 1),
                    eq(ordl[length(ordl) - 1], p))),
         ("I2_closed_others", forall(0, n, lambda b, x: implies(conj(eq(col[b], BLACK), ne(b, x), ne(b, p)),
-                                                              le(D[x], vmax(D[b], W(m, b, x)))))),
+                                                              le(D[x], vmax(D[b], W(m, b, x)))),
+                                    pats=lambda b, x: W_terms(m, b, x))),
         ("I2_closed_p", forall(0, q, lambda x: implies(ne(x, p), le(D[x], vmax(D[p], W(m, p, x)))))),
     ]
 
@@ -268,7 +418,8 @@ def fit_ensures(v, old, result, semi=False):
         head = [("n", eq(n, nl)), ("labels", forall(0, n, lambda x: eq(N[x].label, v.Y_train[x])))]
     return head + [
         ("trained", eq(sg.trained, True)),
-        ("a_closure", forall(0, n, lambda p, q: implies(ne(p, q), le(N[q].cost, vmax(N[p].cost, W(m, p, q)))))),
+        ("a_closure", forall(0, n, lambda p, q: implies(ne(p, q), le(N[q].cost, vmax(N[p].cost, W(m, p, q)))),
+                             pats=lambda p, q: W_terms(m, p, q))),
         ("a_prototypes", conj(exists(0, n, lambda x: eq(N[x].status, PROTOTYPE)),
                               forall(0, n, lambda x: implies(eq(N[x].status, PROTOTYPE),
                                                              conj(eq(N[x].cost, 0), eq(N[x].pred, NIL),
@@ -293,18 +444,28 @@ def fit_ensures(v, old, result, semi=False):
     ] + ([("acyclic_rank", acyclic_rank(sg, v.ghost("g_rank", "list[int]")))] if MODE.kind == "sym" else [])
 
 
+def fit_exit_hints(v, old):
+    """after the competition loop: the queue is empty, so every node was conquered (colour BLACK), and the conquest
+    order is a bijection.  `finite` is proved from the clauses it needs only (a focused hint)."""
+    sg, h = v.self.subgraph, v.h
+    n = length(sg.nodes)
+    return [
+        ("no_gray", forall(0, n, lambda x: ne(h.color[x], GRAY))),
+        ("proto_black", forall(0, n, lambda x: implies(eq(sg.nodes[x].status, PROTOTYPE), eq(h.color[x], BLACK)))),
+        ("finite", forall(0, n, lambda x: lt(h.cost[x], FLOAT_MAX), pats=lambda x: [h.color[x], h.cost[x]]),
+         ["req.metric", "some_prototype", "proto_black", "I3_proto", "I2_closed", "n"]),
+        ("all_black", forall(0, n, lambda x: eq(h.color[x], BLACK))),
+        ("rank_inverse", forall(0, n, lambda x: conj(le(0, v.g_rank[x]), lt(v.g_rank[x], length(sg.idx_nodes)),
+                                                     eq(sg.idx_nodes[v.g_rank[x]], x)),
+                                pats=lambda x: [v.g_rank[x], sg.nodes[x].cost]))]
+
+
 contract(S + "fit",
          params={"self": "obj:SupervisedOPF", "X_train": "list[feat]", "Y_train": "list[int]", "I_train": "optlist[int]"},
          props=["C01", "C03", "C04"],
          requires=fit_requires, ensures=fit_ensures,
          modifies=["self.subgraph"],
-         hints=[("after:loop1", lambda v, old: [
-             ("no_gray", forall(0, length(v.self.subgraph.nodes), lambda x: ne(v.h.color[x], GRAY))),
-             ("all_black", forall(0, length(v.self.subgraph.nodes), lambda x: eq(v.h.color[x], BLACK))),
-             ("rank_inverse", forall(0, length(v.self.subgraph.nodes),
-                                     lambda x: conj(le(0, v.g_rank[x]), lt(v.g_rank[x], length(v.self.subgraph.idx_nodes)),
-                                                    eq(v.self.subgraph.idx_nodes[v.g_rank[x]], x)),
-                                     pats=lambda x: [v.g_rank[x], v.self.subgraph.nodes[x].cost]))])],
+         hints=[("after:loop1", fit_exit_hints)],
          lemmas=[("before:h.cost[i] = 0", "cost_write", lambda v: {"h": v.h, "x": v.i}),
                  ("before:h.cost[i] = c.FLOAT_MAX", "cost_write", lambda v: {"h": v.h, "x": v.i}),
                  ("after:loop1", "inj_card", lambda v: {"f": v.self.subgraph.idx_nodes, "g": v.g_rank,
